@@ -233,6 +233,26 @@ pub fn answer_local(l: i64) -> Ans {
     }
 }
 
+/// Exactly one conversion through `Local` per answer (C18 judges single conversions while the
+/// environment changes: two calls in one observation could legitimately see two zones).
+pub fn answer_utc_single(u: i64) -> Ans {
+    let Some(n) = ndt_of_secs(u) else { return Ans::Unrepresentable };
+    match guard(|| Local.from_utc_datetime(&n).offset().fix().local_minus_utc()) {
+        Ok(o) => Ans::Single(o),
+        Err(p) => Ans::Panic(format!("{} at {}", p.msg, p.site())),
+    }
+}
+
+pub fn answer_local_single(l: i64) -> Ans {
+    let Some(n) = ndt_of_secs(l) else { return Ans::Unrepresentable };
+    match guard(|| Local.from_local_datetime(&n).map(|d| d.offset().fix().local_minus_utc())) {
+        Ok(MappedLocalTime::None) => Ans::None,
+        Ok(MappedLocalTime::Single(o)) => Ans::Single(o),
+        Ok(MappedLocalTime::Ambiguous(a, b)) => Ans::Ambiguous(a, b),
+        Err(p) => Ans::Panic(format!("{} at {}", p.msg, p.site())),
+    }
+}
+
 /// `chk --child tzq <queries file>`: answers on stdout.
 pub fn child_main(args: &[String]) -> i32 {
     let Some(path) = args.first() else { return 3 };
